@@ -8,7 +8,7 @@
    version whose value token is 1000 + (index of the name in svc) and refreshes the store. *)
 From Coq Require Import List Bool NArith ZArith.
 Import ListNotations.
-From Setec Require Import Base.SMap Client.Store Client.Fields Corr.Common.
+From Setec Require Import Base.SMap Base.Path Client.Store Client.Fields Corr.Common.
 
 Definition ty_of (t : N) : ftype :=
   match t with
